@@ -547,3 +547,75 @@ def check_posting(repo: Repo, rep: Report) -> None:
         rep.undecide("VID-5", str(ex))
     except Raised as ex:
         rep.finding("VID-5", SOLVER_FILE, "Solver.ensure", "ensure raises", f"posting well-typed constraints raises {ex.what}")
+
+
+def check_declarations(repo: Repo, rep: Report) -> None:
+    """VID-6: the declaring methods of Solver, evaluated from source in the graph world (expr.py, array.py, solver.py together)"""
+    rep.rule("VID-6", "Solver.int_var(lo, hi) declares one IntVar with exactly that domain; bool_array / int_array(shape[, lo, hi]) declare exactly "
+                      "prod(shape) new variables, in order, and return the 1-D / 2-D array of that shape over them (shape as int, 1-tuple, 2-tuple; "
+                      "extents 0 and 1 included); lo > hi is rejected")
+    from .graphnative import GraphWorld
+
+    rep.saw(SOLVER_FILE, "Solver.int_array")
+    try:
+        w = GraphWorld(repo)
+        cw = w.cw
+        s = w.solver()
+        bad = None
+        n = 0
+
+        def variables() -> List[Any]:
+            return list(s.attrs.get("variables", []))
+
+        v = cw.method(s, "int_var")(-3, 7)
+        if not (isinstance(v, Obj) and v.attrs.get("lo") == -3 and v.attrs.get("hi") == 7 and v.attrs.get("id") == 0 and variables() == [v]
+                and list(s.attrs.get("is_answer_key", [])) == [False]):
+            bad = f"int_var(-3, 7) declares lo={getattr(v, 'attrs', {}).get('lo')!r} hi={getattr(v, 'attrs', {}).get('hi')!r} id={getattr(v, 'attrs', {}).get('id')!r}"
+        shapes: List[Any] = [0, 1, 3, (2,), (0,), (1, 3), (3, 1), (2, 2), (0, 2), (2, 0)]
+        for shape in shapes if not bad else []:
+            for kind in ("bool", "int"):
+                n += 1
+                before = variables()
+                try:
+                    arr = cw.method(s, "bool_array")(shape) if kind == "bool" else cw.method(s, "int_array")(shape, -1, 4)
+                except Raised as ex:
+                    bad = f"{kind}_array({shape!r}) raises {ex}"
+                    break
+                tup = (shape,) if isinstance(shape, int) else tuple(shape)
+                size = 1
+                for k in tup:
+                    size *= k
+                new = variables()[len(before):]
+                want_cls = ("Bool" if kind == "bool" else "Int") + ("Array1D" if len(tup) == 1 else "Array2D")
+                data = arr.attrs.get("data") if isinstance(arr, Obj) else None
+                got_shape = tuple(arr.attrs.get("shape", (len(data),))) if isinstance(arr, Obj) and isinstance(data, list) else None
+                ids = [x.attrs.get("id") for x in new]
+                if len(new) != size or ids != list(range(len(before), len(before) + size)):
+                    bad = f"{kind}_array({shape!r}) declares {len(new)} variables with ids {ids}; expected {size} new variables with consecutive ids"
+                elif not isinstance(arr, Obj) or arr.attrs.get("__class__") != want_cls or got_shape != tup or not isinstance(data, list) \
+                        or len(data) != size or any(a is not b for a, b in zip(data, new)):
+                    bad = (f"{kind}_array({shape!r}) returns {getattr(arr, 'attrs', {}).get('__class__')} of shape {got_shape} over "
+                           f"{[getattr(x, 'attrs', {}).get('id') for x in (data or [])]}; expected {want_cls} of shape {tup} over the new variables {ids} in order")
+                elif kind == "int" and any((x.attrs.get("lo"), x.attrs.get("hi")) != (-1, 4) for x in new):
+                    bad = f"int_array({shape!r}, -1, 4) declares the domains {[(x.attrs.get('lo'), x.attrs.get('hi')) for x in new]}"
+                elif len(s.attrs.get("is_answer_key", [])) != len(variables()):
+                    bad = f"{kind}_array({shape!r}): is_answer_key has {len(s.attrs.get('is_answer_key', []))} flags for {len(variables())} variables"
+                if bad:
+                    break
+            if bad:
+                break
+        if not bad:
+            try:
+                r = cw.method(s, "int_array")(2, 3, 1)
+                bad = f"int_array(2, 3, 1) (lo > hi) is accepted and returns {getattr(r, 'attrs', {}).get('__class__')}"
+            except Raised as ex:
+                if "ValueError" not in str(ex):
+                    bad = f"int_array(2, 3, 1) (lo > hi) raises {ex}, not ValueError"
+        if bad:
+            rep.finding("VID-6", SOLVER_FILE, "Solver.int_array", "declarations", bad)
+        else:
+            rep.ok("VID-6", f"int_var and {n} array declarations: the declared variables, their domains, order and the returned array's class and shape", points=n)
+    except Undecided as ex:
+        rep.undecide("VID-6", str(ex))
+    except (Raised, IndexOutOfRange) as ex:
+        rep.finding("VID-6", SOLVER_FILE, "Solver.int_array", "declarations", f"raises {ex}")
